@@ -18,7 +18,7 @@ PROVED = ("C08Get: get_eq_filter (the WHOLE method x.get(start, end) on a well-f
           "occupied cells consecutive in time order at the start (align=start) or the end (align=end) of the row, the rest padding; "
           "trialCount_rows: row i of trial_count, read without padding, = the counts of exactly the bins of count whose centre lies in "
           "trial i, in order, and the preallocated width always suffices (canonical trials, any bin size, both alignments)")
-NOT_PROVED = ("after_t, and before_t / closest_t with end (model correspondence; single-instant before_t is C08Modes.get_before: empty iff every sample is after start, else a latest sample at or before start); warp == count: oracle")
+NOT_PROVED = ("before_t / after_t / closest_t WITH end (model correspondence; the single-instant forms are C08Modes.get_before and get_after); warp == count: oracle")
 ASSUMPTIONS = ["series non-empty and sorted (C04)"]
 EXTRA_MODULES = ["C08Get", "C08Modes"]
 MODES = ["before_t", "after_t", "closest_t", "restrict"]
